@@ -337,6 +337,8 @@ def rule_store(R):
             wt, lt = peel(cs[0][1](cs[0][0].args[1])), peel(cs[0][1](cs[0][0].args[2]))
             pn = {b.param_name(k): k - 1 for k in range(1, b.arg_count + 1)}
             okc = wt[0] == "param" and lt[0] == "param" and wt[1] in pn and lt[1] in pn and wt[1] != lt[1]
+            # a parameter called `len` handed on as the count (or the reverse) is a swap inside the setter
+            okc = okc and wt[1] != "len" and lt[1] != "written"
             if okc:
                 widx[b.name], lidx[b.name] = pn[wt[1]], pn[lt[1]]
         n += 1
@@ -433,7 +435,14 @@ def rule_ping(R):
     clause_pending_ping_states(R, "ping/pending-states")
 
 
+def rule_shared_sent(R):
+    """a flush that completes after a cancellation is booked on the entry that was flushed (same queue, same identifier) -- C02's rule"""
+    from .c02 import rule_sent as _r
+    _r(R)
+
+
 def run(R):
+    R.rule("sent", rule_shared_sent)
     R.rule("ping", rule_ping)
     R.rule("progress", rule_progress)
     R.rule("atomic", rule_atomic)
